@@ -85,7 +85,7 @@ extern "C" void harness_chain()  /* vf: bounds=16_contexts(incl._inner_dimension
     vf_reach("end");
 }
 
-extern "C" void harness_chain3()  /* vf: tier=thorough bounds=16_contexts_x_chain_length_3_x_11_function_read_forms_x_3_terminals */
+extern "C" void harness_chain3()  /* vf: tier=thorough bounds=16_contexts_x_chain_length_3_x_8_function_read_forms_x_3_terminals */
 {
     int ctx = vf_pick("!context", NCTX), term = vf_pick("!terminal", NTERM);
     std::string decls, E = TERM[term];
@@ -93,7 +93,7 @@ extern "C" void harness_chain3()  /* vf: tier=thorough bounds=16_contexts_x_chai
         int link = vf_pick("!link", NLINK);
         std::string n = std::to_string(i);
         if (link == L_CONST) { decls += "const int c" + n + " = " + E + ";\n"; E = "c" + n; }
-        else if (link == L_FUN) { int r = vf_pick("!read", NREAD); decls += "int f" + n + "() { " + fbody(r, E) + " }\n"; E = "f" + n + "()"; }
+        else if (link == L_FUN) { int r = vf_pick("!read", 8);   /* chains of three: the eight read forms through statements; the initialiser forms are covered by chains of up to two */ decls += "int f" + n + "() { " + fbody(r, E) + " }\n"; E = "f" + n + "()"; }
         else if (link == L_CONSTARR) E = "carr[" + E + " % 3]";
         else if (link == L_CONSTIF) E = "(" + E + " > 0 ? crec[1].f : carr[0])";
         else E = "(" + E + " + 1)";
